@@ -24,6 +24,16 @@ def cases(tier, seed):
         for A in two:
             for B in rng.sample(two, 40):
                 yield {'A': S.to_json(A), 'B': S.to_json(B), 'clsA': 'DFA', 'clsB': 'DFA', 'origin': 'partial DFA n=2 k=2 x 40 sampled partners'}
+    # larger automata (5-7 states, 2 symbols), each against an independently built equivalent partner: Hopcroft refinement has cases that
+    # only occur when a class is split while it is still pending as a splitter
+    for i in range(2500 if tier == 'quick' else 25000):
+        A = S.random_dfa(rng, rng.choice([5, 6, 7]), ['a', 'b'], total_p=rng.choice([0.7, 0.9, 1.0]))
+        start, finals, delta, seen, alphabet = S.determinize(A)
+        ids = {Sx: i for i, Sx in enumerate(sorted(seen, key=lambda x: sorted(map(repr, x))))}
+        keep_sink = rng.random() < 0.5
+        tr = [(ids[Sx], a, ids[Tx]) for (Sx, a), Tx in delta.items() if keep_sink or (Sx and Tx)]
+        B = S.mk([ids[x] for x in seen if keep_sink or x], alphabet, [ids[start]] if (keep_sink or start) else [], [ids[x] for x in finals], tr)
+        yield {'A': S.to_json(A), 'B': S.to_json(B), 'clsA': 'DFA', 'clsB': 'DFA', 'origin': 'random DFA 5-7 states vs its reference determinisation'}
     n_random = 3000 if tier == 'quick' else 30000
     for i in range(n_random):
         kind = rng.random()
